@@ -57,6 +57,10 @@ func c13Cases(tier string) []c13Case {
 			cs = append(cs, c13Case{Kind: "stall-mid", Offset: off, Mode: m})
 		}
 		cs = append(cs, c13Case{Kind: "stop", Mode: m})
+		// the stop reason changes while the real request is in flight (target gated by the harness)
+		for _, gz := range []bool{false, true} {
+			cs = append(cs, c13Case{Kind: "stop-cleared-inflight", Mode: m, Gzip: gz}, c13Case{Kind: "stop-set-inflight", Mode: m, Gzip: gz})
+		}
 	}
 	// body breaking off at every offset: direct mode every offset, tcp mode every offset too (cheap)
 	for _, m := range modes {
@@ -164,13 +168,37 @@ func c13Kind(c c13Case) string {
 	return k
 }
 
+// runC13 runs one case; a case whose HEALTHY scrapes (warm-up, recovery) ran into the scrape timeout
+// says something about the load of the machine, not about kvass: it is repeated, and inconclusive
+// if that happens three times in a row.
 func runC13(w *core.WorkerCtx, idx int) *core.CaseResult {
+	var res *core.CaseResult
+	for attempt := 0; attempt < 3; attempt++ {
+		ld := &c13Load{}
+		res = runC13Case(w, idx, ld)
+		if !ld.suspect {
+			return res
+		}
+	}
+	res.Viol = nil
+	res.Inconcl = "a healthy scrape hit the scrape timeout in three attempts (machine overloaded)"
+	return res
+}
+
+type c13Load struct{ suspect bool }
+
+func runC13Case(w *core.WorkerCtx, idx int, ld *c13Load) *core.CaseResult {
 	cs := c13Cases(w.Tier)
 	c := cs[idx]
 	kind := c13Kind(c)
 	res := &core.CaseResult{Sig: fmt.Sprintf("%s|%s|gz%v|big%v|off%d|st%d", kind, c.Mode, c.Gzip, c.Big, c.Offset, c.Status), Nontrivial: true}
 	dir := filepath.Join(w.Scratch, fmt.Sprintf("c13-%d", idx))
-	rg, err := newRig(dir, "1s", "")
+	// only the stall faults need the scrape timeout to fire; everything else gets a timeout no loaded machine reaches
+	timeout := rigLongTimeout
+	if strings.HasPrefix(c.Kind, "stall") {
+		timeout = "1s"
+	}
+	rg, err := newRig(dir, timeout, "")
 	if err != nil {
 		res.Inconcl = "rig: " + err.Error()
 		return res
@@ -248,12 +276,14 @@ func runC13(w *core.WorkerCtx, idx int) *core.CaseResult {
 		o := rg.scrapeTCP("j1", h)
 		if o.Status != 200 || o.Aborted {
 			res.Inconcl = fmt.Sprintf("healthy warm-up scrape failed: %+v", o.ReadErr)
+			ld.suspect = true
 			return res
 		}
 	} else {
 		o := scrape(reqURL)
 		if o.Status != 200 || o.Aborted {
 			res.Inconcl = "healthy warm-up scrape failed"
+			ld.suspect = true
 			return res
 		}
 	}
@@ -273,6 +303,8 @@ func runC13(w *core.WorkerCtx, idx int) *core.CaseResult {
 	// 2. the faulty scrape
 	var raw *rawTarget
 	fault := true
+	either := false // the stop reason changes mid-scrape: the attempt may count as failed or as successful, but consistently
+	var gate, entered chan struct{}
 	truncating := true // the fault cuts content (vs. breaking after all content was delivered)
 	switch c.Kind {
 	case "none":
@@ -295,6 +327,17 @@ func runC13(w *core.WorkerCtx, idx int) *core.CaseResult {
 			return res
 		}
 		rg.hookClients()
+	case "stop-cleared-inflight", "stop-set-inflight":
+		either = true
+		if c.Kind == "stop-cleared-inflight" {
+			if _, _, err := rg.in.Call("POST", "/api/v1/status/extra_config/", &prom.ExtraConfig{StopScrapeReason: "disk of prometheus is full"}, nil); err != nil {
+				res.Inconcl = "set stop reason: " + err.Error()
+				return res
+			}
+			rg.hookClients()
+		}
+		gate, entered = make(chan struct{}), make(chan struct{})
+		rg.mt.set(host, &bodyScript{Body: body, Gzip: c.Gzip, Gate: gate, Entered: entered})
 	case "midbody", "unassigned-midbody":
 		bs := &bodyScript{Body: body, Gzip: c.Gzip, Err: c.Err, ErrAt: c.Offset}
 		if c.Chunk > 0 {
@@ -331,14 +374,53 @@ func runC13(w *core.WorkerCtx, idx int) *core.CaseResult {
 		q.Set("_scheme", "http")
 		reqURL = fmt.Sprintf("http://%s/metrics?%s", raw.l.Addr().String(), q.Encode())
 	}
-	o := scrape(reqURL)
+	var o scrapeOutcome
+	if gate != nil {
+		ch := make(chan scrapeOutcome, 1)
+		go func() { ch <- scrape(reqURL) }()
+		select {
+		case <-entered:
+		case <-time.After(30 * time.Second):
+			close(gate)
+			res.Inconcl = "the gated real request was not made within 30 s"
+			ld.suspect = true
+			return res
+		}
+		reason := "disk of prometheus is full"
+		if c.Kind == "stop-cleared-inflight" {
+			reason = ""
+		}
+		_, _, err := rg.in.Call("POST", "/api/v1/status/extra_config/", &prom.ExtraConfig{StopScrapeReason: reason}, nil)
+		close(gate)
+		o = <-ch
+		if err != nil {
+			res.Inconcl = "change stop reason mid-scrape: " + err.Error()
+			return res
+		}
+	} else {
+		o = scrape(reqURL)
+	}
 	res.Execs = 1
 	res.AddStat("scrapes_with_fault_"+kind, 1)
 	if o.Panic != "" {
 		res.Violate("C13/handler-panic/"+kind, "proxy handler panicked: %s", o.Panic)
 	}
 	promFailed := o.Status != 200 || o.Aborted
-	if fault {
+	if either {
+		fault = promFailed
+		if !promFailed && string(o.Body) != string(body) {
+			res.Violate("C13/prom-side-success/"+kind, "stop reason changed while the real request was in flight: Prometheus received a complete 200 response with %d of %d body bytes", len(o.Body), len(body))
+			fault = true // nothing usable was delivered: the status must not show a success
+		}
+		if promFailed {
+			res.AddSet("inflight_outcomes", kind+"=failed")
+		} else {
+			res.AddSet("inflight_outcomes", kind+"=succeeded")
+		}
+	}
+	if either {
+		// judged above
+	} else if fault {
 		if promFailed {
 			if o.Aborted {
 				res.AddStat("prom_side_aborted", 1)
@@ -398,17 +480,23 @@ func runC13(w *core.WorkerCtx, idx int) *core.CaseResult {
 	}
 
 	// 3. recovery: a healthy scrape again
-	if c.Kind == "stop" {
+	if strings.HasPrefix(c.Kind, "stop") {
 		_, _, _ = rg.in.Call("POST", "/api/v1/status/extra_config/", &prom.ExtraConfig{StopScrapeReason: ""}, nil)
 	}
 	rg.hookClients()
 	rg.mt.set(host, good)
 	o2 := scrape(proxyURLFor("j1", h))
+	if isTimeoutish(o2.ReadErr) {
+		ld.suspect = true
+	}
 	if o2.Status != 200 || o2.Aborted || string(o2.Body) != string(body) {
 		res.Violate("C13/no-recovery/"+kind, "healthy scrape after the fault: status %d aborted %v body %d/%d bytes", o2.Status, o2.Aborted, len(o2.Body), len(body))
 	}
 	if assigned {
 		st := status()
+		if st != nil && isTimeoutish(st.LastError) {
+			ld.suspect = true
+		}
 		if st != nil && (string(st.Health) != "up" || st.LastError != "" || st.ScrapeTimes != before+1) {
 			res.Violate("C13/success-not-up", "after the recovery scrape: health %q, lastError %q, ScrapeTimes %d (expected up, \"\", %d)", st.Health, st.LastError, st.ScrapeTimes, before+1)
 		}
